@@ -569,3 +569,19 @@ Proof.
   rewrite Hm, fmt_join_lines by exact Hw.
   rewrite !strip_app_blank; [reflexivity|reflexivity|exact Hblank].
 Qed.
+
+(* ---- the formatter accepts whatever the parser accepts ---------------------------------------- *)
+Theorem parser_accepts_formatter_accepts data body :
+  parse_runes true data = Ok (mkP (Some body) []) -> exists out, fmt_runes data = Ok out.
+Proof.
+  unfold parse_runes, fmt_runes, collect_fmt, collect_fragments, omap, obind.
+  destruct (all_tokens true data) as [toks|ds|]; try discriminate.
+  destruct (walk_fragments true toks) as [fs ds|p|]; try discriminate.
+  destruct ds as [|d r]; [eauto|discriminate].
+Qed.
+
+(* Fmt never panics and never exhausts fuel *)
+Theorem fmt_runes_total data : match fmt_runes data with Ok _ => True | Err _ => True | _ => False end.
+Proof.
+  unfold fmt_runes, omap, obind. destruct (collect_fmt_total data) as [[ds ->]|[c ->]]; exact I.
+Qed.
